@@ -279,6 +279,8 @@ fn pats<F: PF>() -> Vec<BigInt> {
         pow2(224), pow2(224) - 1, pow2(224) + 1, pow2(32), BigInt::from(0x1000003D1u64),
     ];
     for k in 1..F::NL as u32 { v.push(pow2(64 * k) - 1); v.push(pow2(64 * k)); v.push(pow2(64 * k) + 1); }
+    // quarter points of the modulus length (for a Solinas prime 2^n - 2^(n/2) - 1 the products 2^(3n/4) * 2^(3n/4) wrap twice)
+    for k in 1..4u32 { let e = bl * k / 4; v.push(pow2(e) - 1); v.push(pow2(e)); v.push(pow2(e) + 1); }
     let mut alt0 = zero(); let mut alt1 = zero(); let mut msb = zero(); let mut lsb = zero();
     for k in 0..F::NL as u32 {
         if k % 2 == 0 { alt0 += BigInt::from(u64::MAX) << (64 * k); } else { alt1 += BigInt::from(u64::MAX) << (64 * k); }
